@@ -20,8 +20,11 @@ tie to code: real pipeline runs (stages gen, erase, overwrite), every program tr
                (K3) declaration tags of the model doc == INV             [theorem doc_inventory, observed]
                (K4) Lean `semProgram p` == non-layout pieces of the doc, `condOK p` holds   [doc_pieces_partial]
                (K5) literal / operator pieces of the doc == LIT          [literals_ops_present, observed]
+             Modelled: Kotlin (Props/C12.lean) and Scala (Props/C12Scala.lean, namespace Heph.Props.C12.Scala; ops
+             `trans.scala.doc|inventory|sem`; K5 reads `is` / `!is` as Scala's `isInstanceOf`).
              witnesses: the counterexample of `doc_pieces` / `balanced` (a lambda as the condition of a
-             conditional) is replayed on the real KotlinTranslator.
+             conditional) is replayed on the real KotlinTranslator and ScalaTranslator (Scala also: `new` as the
+             condition, whose `ne` is cut off).
 failing input: (S1)-(S3) are judged on the real code alone, so a difference IS the failing input: language,
              generator replay (lang, seed, switches, depth), stage, first differing declaration.  If only
              (K1)-(K5) break (model vs code), the program is re-examined with S1-S3 for every language and
@@ -165,9 +168,11 @@ def java_annotation_legs(run, spec, stage, text, inv, found):
 # ------------------------------------------------------------------ model legs
 def model_requests(L, e):
     m = MODELS[L]
-    return [{"op": m["doc_op"], "program": e, "package": "src.pkg"},
-            {"op": m["inv_op"], "program": e},
-            {"op": m["sem_op"], "program": e}]
+    rq = [{"op": m["doc_op"], "program": e, "package": "src.pkg"},
+          {"op": m["inv_op"], "program": e}]
+    if "sem_op" in m:           # K4 only for a language whose model has the IR-side `semProgram`
+        rq.append({"op": m["sem_op"], "program": e})
+    return rq
 
 
 def model_judge(run, L, ans, text, inv, lit):
@@ -175,7 +180,8 @@ def model_judge(run, L, ans, text, inv, lit):
     for a in ans:
         if "error" in a:
             raise common.HarnessError("driver error (%s): %s" % (L, a["error"]))
-    doc, linv, sem = ans[0]["r"], ans[1]["r"], ans[2]["r"]
+    doc, linv = ans[0]["r"], ans[1]["r"]
+    sem = ans[2]["r"] if len(ans) > 2 else None
     import c11_plugin
     flat = "".join(p[2] for p in doc)
     if flat != text:
@@ -188,15 +194,18 @@ def model_judge(run, L, ans, text, inv, lit):
     if dtags != want:
         k = next((i for i, (x, y) in enumerate(zip(dtags, want)) if x != y), min(len(dtags), len(want)))
         out.append(("K3 doc-decl-tags=inventory", {"index": k, "doc": dtags[k:k + 2], "python": want[k:k + 2]}))
-    run.tally("condOK", str(sem["condok"]))
     nonlay = [p for p in doc if p[0] != "other"]
-    if sem["condok"] and sem["pieces"] != nonlay:
-        k = next((i for i, (x, y) in enumerate(zip(sem["pieces"], nonlay)) if x != y), min(len(nonlay), len(sem["pieces"])))
-        out.append(("K4 sem=non-layout-pieces", {"index": k, "sem": sem["pieces"][k:k + 2], "doc": nonlay[k:k + 2]}))
-    if not sem["condok"] and [p[:2] for p in sem["pieces"]] != [p[:2] for p in nonlay]:
-        out.append(("K4 sem-tags=non-layout-tags", {}))
+    if sem is not None:
+        run.tally("condOK", str(sem["condok"]))
+        if sem["condok"] and sem["pieces"] != nonlay:
+            k = next((i for i, (x, y) in enumerate(zip(sem["pieces"], nonlay)) if x != y), min(len(nonlay), len(sem["pieces"])))
+            out.append(("K4 sem=non-layout-pieces", {"index": k, "sem": sem["pieces"][k:k + 2], "doc": nonlay[k:k + 2]}))
+        if not sem["condok"] and [p[:2] for p in sem["pieces"]] != [p[:2] for p in nonlay]:
+            out.append(("K4 sem-tags=non-layout-tags", {}))
     dl = [[("op" if p[0] == "op" else "lit"), p[2]] for p in doc if p[0] in ("lit", "op")]
-    wl = [[("op" if k == "op" else "lit"), t] for k, t in lit]
+    is_text = MODELS[L].get("is_op_text")    # Scala prints both `is` and `!is` as `.isInstanceOf[…]`
+    wl = [[("op" if k == "op" else "lit"), (is_text if is_text and k == "op" and t in ("is", "!is") else t)]
+          for k, t in lit]
     if dl != wl:
         k = next((i for i, (x, y) in enumerate(zip(dl, wl)) if x != y), min(len(dl), len(wl)))
         out.append(("K5 doc-literals-ops=program's", {"index": k, "doc": dl[k:k + 3], "program": wl[k:k + 3]}))
@@ -237,6 +246,45 @@ def witness_badcond(run):
                        "model": model, "expected": expect,
                        "note": "the witness of the counterexample theorems behaves differently on the real code"},
                       signature="witness:doc_pieces_counterexample", no_input=True)
+
+
+def witness_badcond_scala(run):
+    """Scala: `if ((x: Int) => true) 1 else 2` (theorems Scala.doc_pieces_counterexample /
+    Scala.balanced_counterexample: the real ScalaTranslator cuts `(x` off) and `if (new B()) 1 else 2` (`new` is
+    printed before the indentation: `ne` is cut off); model, code and the texts of the Lean examples must agree"""
+    pipeline.setup()
+    from src.translators.scala import ScalaTranslator
+    from src.ir import ast, scala_types as sc, types as tp
+    import export_ast
+    lam = ast.Lambda("l", [ast.ParameterDeclaration("x", sc.Integer)], None, ast.BooleanConstant("true"), None)
+    conds = [("lambda", ast.Conditional(lam, ast.IntegerConstant(1, None), ast.IntegerConstant(2, None), None),
+              "(if (: Int) => true) then\n  1\nelse\n  2)", False),
+             ("new", ast.Conditional(ast.New(tp.SimpleClassifier("B", []), []), ast.IntegerConstant(1, None),
+                                     ast.IntegerConstant(2, None), None),
+              "(if (w   B()) then\n  1\nelse\n  2)", True)]
+    res = {}
+    for name, cond, expect, balanced in conds:
+        tr = ScalaTranslator(None, {})
+        tr.visit(cond)
+        real = tr._children_res[-1]
+        e = export_ast.Exporter()
+        prog = {"lang": "scala", "decls": [e.node(cond)], "context": []}
+        prog["tt"] = e.tt.entries
+        a = common.run_driver([{"op": "trans.scala.doc", "program": prog, "package": None},
+                               {"op": "trans.scala.sem", "program": prog}])
+        for x in a:
+            if "error" in x:
+                raise common.HarnessError("driver: " + x["error"])
+        model = "".join(p[2] for p in a[0]["r"])
+        unb = cs.balance(cs.tokenize(real))
+        res[name] = {"real": real, "model": model, "condok": a[1]["r"]["condok"], "real_text_balanced": unb is None}
+        run.count({"witness": "Scala.doc_pieces_counterexample", "condition": name})
+        if real != model or real != expect or a[1]["r"]["condok"] or (unb is None) != balanced:
+            run.violation({"kind": "broken-correspondence", "witness": "Scala.doc_pieces_counterexample",
+                           "condition": name, "real": real, "model": model, "expected": expect,
+                           "note": "the witness of the counterexample theorems behaves differently on the real code"},
+                          signature="witness:Scala.doc_pieces_counterexample", no_input=True)
+    run.cov["witness_scala_doc_pieces_counterexample"] = res
 
 
 # ------------------------------------------------------------------ streams
@@ -330,6 +378,8 @@ def check(run):
     init_cov(run)
     found = set()
     witness_badcond(run)
+    if "scala" in MODELS:
+        witness_badcond_scala(run)
     nprog, cap, budget = (40, 100, 110) if quick else (1000, 150, 1500)
     depths = [3, 4, 4, 5, 5, 6] if quick else [3, 4, 5, 5, 6, 6]   # depth 7 takes minutes per program on a loaded machine
     specs = make_specs(run.rng, nprog, cap, depths)
@@ -354,6 +404,10 @@ def check(run):
 def replay(run, rp):
     pipeline.setup()
     init_cov(run)
+    if rp.get("witness") == "Scala.doc_pieces_counterexample":
+        witness_badcond_scala(run)
+        run.cov["rule"] = "replay of the Scala counterexample witnesses"
+        return
     if rp.get("witness") == "doc_pieces_counterexample":
         witness_badcond(run)
         run.cov["rule"] = "replay of the counterexample witness"
